@@ -228,13 +228,20 @@ fn crash_image(db: &Db, base: &std::path::Path, k: usize, steps: &[Step]) -> Res
 	let r = catch(|| {
 		parity_db::set_number_of_allowed_io_operations(k);
 		for s in steps {
-			if dbutil::do_step(db, *s).is_err() {
+			if let Err(e) = dbutil::do_step(db, *s) {
+				// what the worker wrappers do with a step error: the handle enters the error state,
+				// in which its shutdown neither enacts nor reclaims anything - it can then be
+				// dropped instead of leaked (a leaked handle keeps its files mapped: memory)
+				db.verif_store_err(e);
 				break
 			}
 			if *s == Step::FlushLogs && db.verif_status().queued_commits == 0 {
 				synced_all = true;
 			}
 		}
+		// (when k lies behind the steps the handle is healthy; it is put into the error state as
+		// well, so that dropping it does not run the rest of the pipeline into the image's source)
+		db.verif_store_err(parity_db::Error::InvalidInput("crash probe: handle retired".into()));
 	});
 	parity_db::set_number_of_allowed_io_operations(usize::MAX);
 	if let Err(p) = r {
@@ -637,9 +644,10 @@ pub fn run(ctx: &Ctx, rep: &mut Report, prop: &str, case_seed: u64, variant: u64
 				steps.push(Step::CleanLogs);
 				let k = if rng.chance(1, 3) { rng.range(0, 12) } else { rng.range(0, 90) } as usize;
 				let (img, synced_all) = crash_image(d, &dir.path, k, &steps)?;
-				// the handle that ran into the failure is leaked; the directory goes back to what it
-				// was before the steps and is recovered: a process crash of the main history
-				std::mem::forget(db.take());
+				// the handle that ran into the failure is retired (error state: its drop touches
+				// nothing); the directory goes back to what it was before the steps and is
+				// recovered: a process crash of the main history
+				drop(db.take());
 				std::fs::remove_dir_all(dir.path.join("db")).map_err(|e| ("failure=harness_io".to_string(), format!("restore: {}", e)))?;
 				std::fs::rename(dir.path.join("bak"), dir.path.join("db")).map_err(|e| ("failure=harness_io".to_string(), format!("restore: {}", e)))?;
 				let _ = std::fs::remove_file(dir.path.join("db").join("lock"));
